@@ -261,7 +261,7 @@ func TestVerif_C27_Watcher(t *testing.T) {
 	run.Rule("2-3 real fileConfigs with real ConfigWatchers on shared temp files and a driver-delivered pubsub; per step the files get one of {unchanged, restore, valid, deprecated-setting (warning), invalid, unreadable} and a PRNG-chosen set of concurrent triggers fires (timer tick on some nodes, external announcements on cfg_update, ConfigReloadInterval elapsed or not); announcements published by the watchers are delivered concurrently until the bus is empty; non-trivial = history in which a pubsub-triggered reload applied a change and some change was refused; distinct = distinct (kinds, trigger set) step sequences")
 	run.Assume("monitor()'s tick is `cw.Config.Reload()`; the real ticker (wall clock, not injectable) is parked with ConfigReloadInterval 24h and the tick is issued by the driver")
 	run.Assume("NewConfig(opts, version) on the same files in the same step is what 'startup would accept' means")
-	run.Cases("cluster", run.N(12, 90), func(i int, rng *verifkit.Rand) { c27wHistory(t, run, rng) })
+	run.Cases("cluster", run.N(12, 70), func(i int, rng *verifkit.Rand) { c27wHistory(t, run, rng) })
 }
 
 func c27wWrite(t *testing.T, path string, content []byte) {
@@ -485,7 +485,7 @@ func c27wHistory(t *testing.T, run *verifkit.Run, rng *verifkit.Rand) {
 		fmt.Fprintf(&abstract, "%s/%s/t%v/a%d;", rec.CfgKind, rec.RulesKind, rec.Ticks, rec.Announce)
 		type verdict struct {
 			sig, what string
-			detail   []string
+			detail    []string
 		}
 		var verdicts []verdict
 		for i, n := range nodes {
